@@ -161,6 +161,21 @@ impl Parser<()> for ScopeProbe {
     }
 }
 
+/// an `Info` without any text (Info::default() builds Docs from strings, which is what made CBMC run out of memory)
+fn cheap_info() -> crate::info::Info {
+    crate::info::Info {
+        version: None,
+        descr: None,
+        header: None,
+        footer: None,
+        usage: None,
+        help_arg: NamedArg { short: Vec::new(), long: Vec::new(), env: Vec::new(), help: None },
+        version_arg: NamedArg { short: Vec::new(), long: Vec::new(), env: Vec::new(), help: None },
+        help_if_no_args: false,
+        max_width: 100,
+    }
+}
+
 #[kani::proof]
 #[kani::unwind(6)]
 fn k12_command_scope_is_name_to_end() {
@@ -183,7 +198,7 @@ fn k12_command_scope_is_name_to_end() {
         longs,
         shorts: Vec::new(),
         help: None,
-        subparser: OptionParser { inner: Box::new(ScopeProbe), info: crate::info::Info::default() },
+        subparser: OptionParser { inner: Box::new(ScopeProbe), info: cheap_info() },
         adjacent: false,
     };
     let r = cmd.eval(&mut st);
@@ -192,6 +207,125 @@ fn k12_command_scope_is_name_to_end() {
     assert!(unsafe { SEEN_END } == 3);
     assert!(st.verif_remaining() == 0);
     kani::cover!(!p1 && p2);
+    std::mem::forget(r);
+    std::mem::forget(st);
+    std::mem::forget(cmd);
+}
+
+/// K12b: an *adjacent* command (success on the first attempt): the inner parser sees exactly the run of available items right
+/// after the name, and the enclosing scope is handed back afterwards (C19 "adjacent commands", C05 scope restoration)
+#[kani::proof]
+#[kani::unwind(6)]
+fn k12_adjacent_command_scope() {
+    let mut items = Vec::with_capacity(3);
+    let mut name = Vec::with_capacity(1);
+    name.push(b'c');
+    items.push(Arg::Word(<OsString as std::os::unix::ffi::OsStringExt>::from_vec(name)));
+    items.push(Arg::Word(OsString::new()));
+    items.push(Arg::Word(OsString::new()));
+    let p1: bool = kani::any();
+    let p2: bool = kani::any();
+    let mut ledger = Vec::with_capacity(3);
+    ledger.push(ItemState::Unparsed);
+    ledger.push(if p1 { ItemState::Unparsed } else { ItemState::Parsed });
+    ledger.push(if p2 { ItemState::Unparsed } else { ItemState::Parsed });
+    let mut st = State::verif_mk(items, ledger, 0, 3);
+    let mut longs = Vec::with_capacity(1);
+    longs.push("c");
+    let cmd = ParseCommand {
+        longs,
+        shorts: Vec::new(),
+        help: None,
+        subparser: OptionParser { inner: Box::new(ScopeProbe), info: cheap_info() },
+        adjacent: true,
+    };
+    let r = cmd.eval(&mut st);
+    assert!(r.is_ok());
+    // the block offered to the inner parser: the available items directly after the name
+    let exp_end = if !p1 { 1 } else if !p2 { 2 } else { 3 };
+    assert!(unsafe { SEEN_START } == 1);
+    assert!(unsafe { SEEN_END } == exp_end);
+    // the enclosing scope (from the name to the end) is handed back; an available item behind a gap is still there
+    let sc = st.scope();
+    assert!(sc.start == 0 && sc.end == 3);
+    assert!(st.verif_remaining() == if !p1 && p2 { 1 } else { 0 });
+    kani::cover!(!p1 && p2);
+    std::mem::forget(r);
+    std::mem::forget(st);
+    std::mem::forget(cmd);
+}
+
+// K12c: adjacent command, retry path: the first attempt (on all adjacently available items) fails after claiming the first
+// item, the retry on the narrowed block succeeds. Guards D9 (scope handed back is the one the command was given) and the
+// ledger handed back is the successful attempt's.
+static mut CALLS: usize = 0;
+static mut SECOND_START: usize = usize::MAX;
+static mut SECOND_END: usize = usize::MAX;
+
+struct FailThenClaim;
+impl Parser<()> for FailThenClaim {
+    fn eval(&self, args: &mut State) -> Result<(), Error> {
+        let sc = args.scope();
+        let n = unsafe {
+            CALLS += 1;
+            CALLS
+        };
+        if n == 1 {
+            // claim the first offered item, then fail with a final message (no rendering involved)
+            args.remove(sc.start);
+            Err(Error(Message::ParseFailure(crate::ParseFailure::Stderr(Doc::default()))))
+        } else {
+            unsafe {
+                SECOND_START = sc.start;
+                SECOND_END = sc.end;
+            }
+            let mut i = sc.start;
+            while i < sc.end {
+                args.remove(i);
+                i += 1;
+            }
+            Ok(())
+        }
+    }
+    fn meta(&self) -> Meta {
+        Meta::Skip
+    }
+}
+
+#[kani::proof]
+#[kani::unwind(24)]
+fn k12_adjacent_command_retry() {
+    // c w1 w2 : all three available; the first attempt sees [1,3), claims 1 and fails; the retry sees [1,2)
+    let mut items = Vec::with_capacity(3);
+    let mut name = Vec::with_capacity(1);
+    name.push(b'c');
+    items.push(Arg::Word(<OsString as std::os::unix::ffi::OsStringExt>::from_vec(name)));
+    items.push(Arg::Word(OsString::new()));
+    items.push(Arg::Word(OsString::new()));
+    let mut ledger = Vec::with_capacity(3);
+    ledger.push(ItemState::Unparsed);
+    ledger.push(ItemState::Unparsed);
+    ledger.push(ItemState::Unparsed);
+    let mut st = State::verif_mk(items, ledger, 0, 3);
+    let mut longs = Vec::with_capacity(1);
+    longs.push("c");
+    let cmd = ParseCommand {
+        longs,
+        shorts: Vec::new(),
+        help: None,
+        subparser: OptionParser { inner: Box::new(FailThenClaim), info: cheap_info() },
+        adjacent: true,
+    };
+    let r = cmd.eval(&mut st);
+    assert!(unsafe { CALLS } == 2);
+    assert!(r.is_ok());
+    assert!(unsafe { SECOND_START } == 1 && unsafe { SECOND_END } == 2);
+    // D9: the scope handed back is the command's own (name .. end), so the untouched third item is still visible
+    let sc = st.scope();
+    assert!(sc.start == 0 && sc.end == 3);
+    assert!(st.verif_remaining() == 1);
+    let l = st.verif_ledger();
+    assert!(l[0].parsed() && l[1].parsed() && !l[2].parsed());
     std::mem::forget(r);
     std::mem::forget(st);
     std::mem::forget(cmd);
